@@ -3,7 +3,7 @@
    and nat stay the extracted inductive types (no 63-bit overflow). *)
 Require Extraction.
 Require Import ExtrOcamlBasic.
-From Gopar Require Import Model.Base Model.GF16 Model.Kernels Model.Ssse3 Model.Matrix Model.RS16 Model.Parallel Model.CRC Model.GoPath Model.FS Model.Par2 Model.Par2Spec Model.GF8 Model.Par1 Model.CLI.
+From Gopar Require Import Model.Base Model.GF16 Model.Kernels Model.Ssse3 Model.Matrix Model.RS16 Model.Parallel Model.CRC Model.GoPath Model.FS Model.Par2 Model.Par2Spec Model.GF8 Model.Par1 Model.Par1Spec Model.CLI.
 Extraction Language OCaml.
 Set Extraction Optimize.
 Extraction "model.ml"
@@ -18,5 +18,6 @@ Extraction "model.ml"
   io_init io_read io_list io_write par2_create par2_verify par2_repair repair_needed repair_possible
   read_file write_file write_packet read_next_packet
   valid_set valid_file s_parse
+  valid_par1_set s1_parse
   par1_create par1_verify par1_repair read_volume write_volume g8mul g8pow par1_encode par1_reconstruct encode_utf16le decode_utf16le
   cli_run parse_flags.
